@@ -239,6 +239,20 @@ TYPED = """(define (domain bystander)
 """
 
 
+# a bystander with numeric terms, among them terms that repeat a parameter ((distance ?a ?a)): legal PDDL that the
+# library's object model represents only approximately - whatever it makes of it must stay inside that domain
+TYPED_NUMERIC = """(define (domain bystander)
+(:requirements :typing :numeric-fluents)
+(:types place vehicle - object truck - vehicle)
+(:constants depot - place)
+(:predicates (at ?v - vehicle ?p - place) (empty ?t - truck) (link ?a - place ?b - place))
+(:functions (distance ?a - place ?b - place) (fuel ?t - truck) (total))
+(:action drive :parameters (?t - truck ?a - place ?b - place)
+ :precondition (and (at ?t ?a) (not (= ?a ?b)) (>= (distance ?a ?a) 0) (>= (fuel ?t) (distance ?a ?b)) (link ?a ?a))
+ :effect (and (at ?t ?b) (not (at ?t ?a)) (decrease (fuel ?t) (distance ?a ?b)) (increase (total) (distance ?b ?b))))
+)
+"""
+
 _nth = {"n": None, "exc": None, "orig": None}
 
 
